@@ -532,7 +532,18 @@ impl<'a> G<'a> {
     }
     fn misc_stat(&mut self) {
         self.feat("misc-stat");
-        match self.u.below(8) {
+        match self.u.below(9) {
+            8 => {
+                // a statement that ends in free text, directly followed by another macro statement: without its ';' the
+                // following statement keyword is where the ';' is found missing
+                self.feat("text-stat-then-macro-stat");
+                match self.u.below(3) { 0 => { self.pk("%put"); self.rws(); self.p("done"); } 1 => { self.pk("%let"); self.rws(); self.p("a = b"); } _ => { self.pk("%sysexec"); self.rws(); self.p("ls"); } }
+                // (blanks after free text belong to the text: no whitespace mark)
+                if self.u.coin(1, 3) { self.p(" "); }
+                self.del_mark(";", "SEMI", "MissingExpectedSemiOrEOF", false); self.ows();
+                let k = self.pick(&["%return;", "%run;", "%list;", "%sysmstoreclear;", "%put x;", "%let q=1;", "%goto done;", "%abort;", "%local z;", "%global z;", "%RUN;", "%Run ;", "%symdel z;", "%if 1 %then %put x;", "%do; %end;"]);
+                self.p(k);
+            }
             0 => { self.pk("%return"); self.ows(); self.del_mark(";", "SEMI", "MissingExpectedSemiOrEOF", false); }
             1 => { self.pk("%symdel"); self.rws(); self.name_expr(); if self.u.coin(1, 2) { self.p(" "); self.name_expr(); } if self.u.coin(2, 3) { self.p(" / nowarn"); } self.ows(); self.p(";"); }
             2 => { self.pk("%sysexec"); self.rws(); self.p("ls -l /tmp"); self.p(";"); }
